@@ -464,7 +464,13 @@ def m_unwrap_or(eng, st, call):
         elif name == 'unwrap_or':
             out.append((s2, call.args[1]))
         elif name == 'unwrap_or_default':
-            out.append((s2, default_of(call.dest_ty)))
+            try:
+                out.append((s2, default_of(call.dest_ty)))
+            except MirError:
+                tgt = eng.prog.resolve_call(f'<{call.dest_ty} as Default>::default', call.func.crate)
+                if tgt is None or isinstance(tgt, tuple):
+                    raise
+                out.extend(eng.run_function(s2, tgt, []))
         else:
             out.extend(call_closure(eng, s2, call.args[1], [] if kind == 'Option' else [p]))
     return out
@@ -1187,7 +1193,7 @@ def map_insert(eng, st, m, k, v):
 
 STD_MODELS += [
     (R(r' as (std::iter::)?Iterator>::(filter|map|filter_map)::<'), m_iter_filter),
-    (R(r' as (std::iter::)?Iterator>::(enumerate|rev|cloned|copied|count|skip|take|last)$'), m_iter_simple),
+    (R(r' as (std::iter::)?Iterator>::(enumerate|rev|cloned|copied|count|skip|take|last)(::<.*>)?$'), m_iter_simple),
     (R(r' as (std::iter::)?Iterator>::collect::<'), m_iter_simple),
 ]
 
@@ -1197,7 +1203,7 @@ STD_MODELS += [
 def _cont(eng, st, a, cls):
     """(ref to the container, container) for a `&self`/`&mut self` argument"""
     if not isinstance(a, Ref):
-        raise MirError('container receiver is not a reference')
+        return None, None            # an opaque reference: the container is environment data, not a model container
     r, v = base_ref(eng, st, a)
     if not isinstance(v, cls):
         return r, None
@@ -1387,4 +1393,143 @@ STD_MODELS += [
     (R(r'slice::<impl \[.*\]>::(len|is_empty|iter|iter_mut|first|last|get|to_vec|contains)$'), m_seq),
     (R(r'(HashMap|BTreeMap|HashSet|BTreeSet|LruCache)::<.*>::(get|get_mut|peek|peek_mut|contains|contains_key|insert|put|push|remove|pop|len|is_empty|clear|entry|values|values_mut|keys|iter|iter_mut|retain)(::<.*>)?$'), m_mapops),
     (R(r'Entry::<.*>::(or_default|or_insert|or_insert_with)(::<.*>)?$'), m_entry),
+]
+
+
+# ---- more std models used by the memory backend ---------------------------------------------------------------------------
+
+def m_range_contains(eng, st, call):
+    r = deref_all(eng, st, call.args[0])
+    x = deref_all(eng, st, call.args[1])
+    if isinstance(r, Agg) and r.ty == 'RangeInclusive' and z3.is_bv(x):
+        lo, hi = r.fields[0], r.fields[1]
+        return [(st, z3.And(z3.ULE(lo, x), z3.ULE(x, hi)))]
+    return None
+
+
+def m_ord_minmax(eng, st, call):
+    a, b = call.args
+    if not (z3.is_bv(a) and z3.is_bv(b)):
+        return None
+    name = method_name(call.fn)
+    m = re.match(r'^<(\w+) as', call.fn)
+    sg = is_signed(m.group(1)) if m else False
+    lt = (a < b) if sg else z3.ULT(a, b)
+    return [(st, z3.If(lt, a, b) if name == 'min' else z3.If(lt, b, a))]
+
+
+def ordering_val(v):
+    """Ordering as an i8 bit-vector (Less=-1, Equal=0, Greater=1)"""
+    if z3.is_bv(v) and v.size() == 8:
+        return v
+    if isinstance(v, Agg) and v.kind == 'enum' and last_seg(v.ty) == 'Ordering':
+        return z3.BitVecVal({'Less': -1, 'Equal': 0, 'Greater': 1}[variant_of(v)], 8)
+    raise MirError(f'Ordering value expected: {vrepr(v)}')
+
+
+def m_then_with(eng, st, call):
+    o = ordering_val(call.args[0])
+    out = []
+    for s2, eq in bool_cases(eng, st, o == 0):
+        if eq:
+            for s3, r in call_closure(eng, s2, call.args[1], []):
+                out.append((s3, ordering_val(r)))
+        else:
+            out.append((s2, o))
+    return out
+
+
+def m_ordering_misc(eng, st, call):
+    name = method_name(call.fn)
+    o = ordering_val(deref_all(eng, st, call.args[0]))
+    if name == 'reverse':
+        return [(st, z3.If(o == 0, o, z3.If(o == 1, z3.BitVecVal(-1, 8), z3.BitVecVal(1, 8))))]
+    if name == 'then':
+        return [(st, z3.If(o == 0, ordering_val(call.args[1]), o))]
+    tbl = {'is_lt': o == -1, 'is_le': o != 1, 'is_gt': o == 1, 'is_ge': o != -1, 'is_eq': o == 0, 'is_ne': o != 0}
+    if name in tbl:
+        return [(st, tbl[name])]
+    return None
+
+
+def m_sort_by(eng, st, call):
+    """slice::sort_by / sort_unstable_by as an insertion sort driven by the closure (forks on every comparison)"""
+    r, v = _cont(eng, st, call.args[0], SeqV)
+    if v is None:
+        return None
+    clo = call.args[1]
+    n = len(v.items)
+    states = [st]
+    for i in range(1, n):
+        # insert element i into the sorted prefix
+        nxt_states = []
+        for s in states:
+            work = [(s, i)]
+            while work:
+                s1, j = work.pop()
+                if j == 0:
+                    nxt_states.append(s1); continue
+                outs = call_closure(eng, s1, clo, [Ref(r.loc, r.path + (('i', j - 1),)), Ref(r.loc, r.path + (('i', j),))])
+                for s2, res in outs:
+                    o = ordering_val(res)
+                    for s3, gt in bool_cases(eng, s2, o == 1):
+                        if gt:
+                            seq = eng.read(s3, r.loc, r.path)
+                            seq.items[j - 1], seq.items[j] = seq.items[j], seq.items[j - 1]
+                            work.append((s3, j - 1))
+                        else:
+                            nxt_states.append(s3)
+        states = nxt_states
+    return [(s, UNIT()) for s in states]
+
+
+def m_index_range(eng, st, call):
+    """<Vec<T>/[T] as Index<Range<usize>>>::index: symbolic bounds are case-split over 0..=len; out-of-order / out-of-range bounds panic"""
+    from .engine import Panic
+    r, v = _cont(eng, st, call.args[0], SeqV)
+    rng = call.args[1]
+    if v is None or not isinstance(rng, Agg) or len(rng.fields) < 2:
+        return None
+    lo, hi = rng.fields[0], rng.fields[1]
+    n = len(v.items)
+    out = []
+
+    def cases(s, x):
+        res = []
+        for k in range(n + 1):
+            if eng.feasible(s, x == k):
+                s2 = s.clone(); eng.assume(s2, x == k); res.append((s2, k))
+        if eng.feasible(s, z3.UGT(x, n)):
+            s2 = s.clone(); eng.assume(s2, z3.UGT(x, n)); res.append((s2, None))
+        return res
+    for s1, a in cases(st, lo):
+        for s2, b in cases(s1, hi):
+            if b is None:
+                out.append((s2, Panic(f'range end index out of range for slice of length {n} in {call.site}')))
+            elif a is None or a > b:
+                out.append((s2, Panic(f'slice index starts at {a} but ends at {b} in {call.site}')))
+            else:
+                seq = eng.read(s2, r.loc, r.path)
+                out.append((s2, Ref(s2.temp(SeqV([copy_val(x) for x in seq.items[a:b]], 'slice')), ())))
+    return out
+
+
+def m_default(eng, st, call):
+    m = re.match(r'^<(.*) as (std::default::)?Default>::default$', call.fn, re.S)
+    if not m:
+        return None
+    try:
+        return [(st, default_of(m.group(1)))]
+    except MirError:
+        return None
+
+
+STD_MODELS[:0] = [
+    (R(r'RangeInclusive::<\w+>::contains::<'), m_range_contains),
+    (R(r'^<(u8|u16|u32|u64|usize|i64) as (std::cmp::)?Ord>::(min|max)$'), m_ord_minmax),
+    (R(r'^(std::cmp::|core::cmp::)?Ordering::then_with::<'), m_then_with),
+    (R(r'^(std::cmp::|core::cmp::)?Ordering::(reverse|then|is_lt|is_le|is_gt|is_ge|is_eq|is_ne)$'), m_ordering_misc),
+    (R(r'slice::<impl \[.*\]>::(sort_by|sort_unstable_by)::<'), m_sort_by),
+    (R(r' as (std::ops::)?Index<(std::ops::)?Range<usize>>>::index$'), m_index_range),
+    (R(r'^<([\w:]*::)?(EventId|Timestamp) as (std::cmp::)?(Ord|PartialOrd)>::(cmp|partial_cmp|lt|le|gt|ge)$'), m_cmp_int),
 ]
